@@ -380,17 +380,23 @@ class Impl:
                 self.written = []
                 self.seq_calls = []
                 self.write_delay = 0
+                self.gate = None          # asyncio.Event: the driver write blocks until it is set
+                self.play = False         # True: set_sequence really installs and plays the sequence
 
             async def read_value(self):
                 raise core_ports.SkipRead()
 
             async def write_value(self, value):
+                if self.gate is not None:
+                    await self.gate.wait()
                 if self.write_delay:
                     await asyncio.sleep(self.write_delay)     # a slow driver: writes issued meanwhile overlap with this one
                 self.written.append(value)
 
             async def set_sequence(self, values, delays, repeat):
                 self.seq_calls.append((list(values), list(delays), repeat))
+                if self.play:
+                    await core_ports.Port.set_sequence(self, values, delays, repeat)
 
         self.RecPort = RecPort
         self.counter = 0
@@ -412,9 +418,11 @@ class Impl:
         handler.access_level = self.core_api.ACCESS_LEVEL_NORMAL
         return self.core_api.APIRequest(handler)
 
-    async def make_port(self, d):
+    async def make_port(self, d, queue_size=None):
         self.counter += 1
         attrs = {'TYPE': d['type'], 'WRITABLE': bool(d['writable'])}
+        if queue_size:
+            attrs['WRITE_VALUE_QUEUE_SIZE'] = queue_size
         for k in ('min', 'max', 'step'):
             if d[k] is not None:
                 attrs[k.upper()] = d[k]
@@ -558,6 +566,76 @@ class Impl:
             await self.drop_port(port)
         return out
 
+    @staticmethod
+    def _assign(rs, calls):
+        """hand the driver calls, in order, to the accepted requests, in submission order; a count mismatch is recorded"""
+        accepted = [r for r in rs if r['outcome'] == 'Accepted']
+        if len(calls) == len(accepted):
+            calls = list(calls)
+            for r in rs:
+                r['written'] = [calls.pop(0)] if r['outcome'] == 'Accepted' else []
+        else:
+            for r in rs:
+                r['written'] = []
+                r['delivery_mismatch'] = {'accepted_requests': len(accepted), 'driver_calls': [describe(c) for c in calls]}
+
+    async def run_queue_full(self, d, bodies, capacity=4, extra=2):
+        """a port whose write queue holds `capacity` entries and whose driver write is blocked: one write enters the driver,
+        capacity + extra more are submitted (the oldest pending ones are evicted and their requests answered with an error),
+        then the driver is released: every request answered 2xx must have reached the driver, in submission order.
+        -> (value results of the requests answered 2xx or unexpectedly, number of requests evicted with 500)"""
+        port = await self.make_port(d, queue_size=capacity)
+        pid = port.get_id()
+        n = 1 + capacity + extra
+        seq = [bodies[i % len(bodies)] for i in range(n)]
+        try:
+            port.gate = asyncio.Event()
+            tasks = [asyncio.create_task(self.one(port, pid, 'value', seq[0], clear=False))]
+            for _ in range(50):
+                await asyncio.sleep(0)
+                if port._writing:
+                    break
+            for b in seq[1:]:
+                tasks.append(asyncio.create_task(self.one(port, pid, 'value', b, clear=False)))
+                for _ in range(3):
+                    await asyncio.sleep(0)
+            port.gate.set()
+            rs = list(await asyncio.gather(*tasks))
+            self._assign(rs, list(port.written))
+            info = {'last_read': None, 'step': 'write queue of %d entries, blocked driver, %d writes submitted, then released' % (capacity, n)}
+            out, evicted = [], 0
+            for i, (b, r) in enumerate(zip(seq, rs)):
+                if r['outcome'] == 'E500' and not r.get('delivery_mismatch') and 0 < i <= extra:
+                    evicted += 1          # QueueFull -> 500: the request was told; outside the model (which has no queue)
+                    continue
+                out.append((b, r, dict(info, request='write %d of %d' % (i + 1, n))))
+            return out, evicted
+        finally:
+            port.gate = None
+            await self.drop_port(port)
+
+    async def run_playback(self, d, values, delay_ms=2):
+        """an accepted PATCH sequence is really installed and played once: -> (request result, values, driver calls while it
+        played) or None when the request is not accepted"""
+        port = await self.make_port(d)
+        pid = port.get_id()
+        try:
+            port.play = True
+            params = {'values': values, 'delays': [delay_ms] * len(values), 'repeat': 1}
+            r = await self.one(port, pid, 'sequence', json.dumps(params).encode())
+            if r['outcome'] != 'Accepted':
+                return None
+            for _ in range(400):
+                if port._sequence is None and port._write_value_queue.empty() and not port._writing:
+                    break
+                await asyncio.sleep(0.001)
+            for _ in range(5):
+                await asyncio.sleep(0)
+            return r, values, list(port.written)
+        finally:
+            port.play = False
+            await self.drop_port(port)
+
     async def one(self, port, pid, entry, body, clear=True):
         req = self.request('PATCH', '/api/ports/%s/%s' % (pid, entry), body)
         handler = req.handler
@@ -599,15 +677,17 @@ def c_json(v):
     raise TypeError(repr(v))
 
 
-def c_def(d):
-    if not d['exists']:
-        return 'None'
-    return ('(Some {| d_bool := %s; d_min := %s; d_max := %s; d_integer := %s; d_step := %s; d_choices := %s; '
-            'd_transform := %d; d_enabled := %s; d_writable := %s |})' % (
+def c_pdesc(d):
+    return ('{| d_bool := %s; d_min := %s; d_max := %s; d_integer := %s; d_step := %s; d_choices := %s; '
+            'd_transform := %d; d_enabled := %s; d_writable := %s |}' % (
                 coq.boolean(d['type'] == 'boolean'), pyvals.opt_pyval(d['min']), pyvals.opt_pyval(d['max']),
                 coq.boolean(d['integer']), pyvals.opt_pyval(d['step']),
                 coq.option(d['choices'], lambda cs: coq.lst([pyvals.pyval(c) for c in cs])),
                 d['transform'], coq.boolean(d['enabled']), coq.boolean(d['writable'])))
+
+
+def c_def(d):
+    return 'None' if not d['exists'] else '(Some %s)' % c_pdesc(d)
 
 
 def c_obs(r):
@@ -709,8 +789,20 @@ def run_plan(ctx, res, plan, tag, overlap_budget=10 ** 9):
             if len(acc) >= 2 and n_overlap < overlap_budget and d['exists']:
                 n_overlap += 1
                 rv = rv + await impl.run_overlap(d, acc[0], acc[-1])
+                if n_overlap % 2 == 0 or d['transform']:
+                    more, ev = await impl.run_queue_full(d, acc[:7])
+                    rv = rv + more
+                    evicted[0] += ev
+            # an accepted sequence really played (always on the ports with a write transform)
+            nums = [json.loads(b) for b in acc if b[:1] in b'-0123456789tf']
+            if nums and d['exists'] and (d['transform'] or n_overlap % 3 == 0) and len(plays) < overlap_budget:
+                p = await impl.run_playback(d, (nums + nums[:1])[:3])
+                if p is not None:
+                    plays.append((d,) + p)
             out.append((rv, rs))
         return out
+
+    plays, evicted = [], [0]
 
     t0 = time.time()
     results = asyncio.run(go())
@@ -729,12 +821,13 @@ def run_plan(ctx, res, plan, tag, overlap_budget=10 ** 9):
             res['evaluations'] += 1
             bump('entry:value')
             bump('outcome:' + str(r['outcome']))
-            bump('last-read-value:' + ('none' if info.get('last_read') is None else
+            bump('last-read-value:' + ('queue-full-scenario' if 'write queue' in info.get('step', '') else
+                                       'none' if info.get('last_read') is None else
                                        'overlapping-writes' if 'request' in info else
                                        'equals-delivered' if 'step' in info else 'other'))
             floats_in(r['json'], floats)
             case = {'entry': 'value', 'definition': describe_def(d), 'body': body.decode()}
-            if info.get('last_read') is not None:
+            if info.get('last_read') is not None or info.get('step'):
                 case['port_state'] = info
             if r.get('delivery_mismatch'):
                 r2 = dict(r, raw='%s; %s' % (r['raw'], json.dumps(r['delivery_mismatch'])))
@@ -786,6 +879,33 @@ def run_plan(ctx, res, plan, tag, overlap_budget=10 ** 9):
     rshards = ['Definition cases : list (sf * Z * Z) := [\n %s].\n' % ';\n '.join(repr_row(x) for x in fl[i:i + 2000])
                for i in range(0, len(fl), 2000)]
     routs = coq.eval_shards(ctx.workdir, 'c05r' + tag, HEADER, rshards, ['bad_repr cases'], jobs=JOBS)
+    prows, pmeta = [], []
+    for d, r, values, calls in plays:
+        res['evaluations'] += 1
+        bump('sequence-playback')
+        case = {'entry': 'sequence-playback', 'definition': describe_def(d),
+                'body': {'values': describe(values), 'delays': [2] * len(values), 'repeat': 1}}
+        if not all(c is None or isinstance(c, (bool, int, float)) for c in calls):
+            res['tie_failures'].append({'case': case, 'driver_calls': repr(calls), 'note': 'observation outside the model alphabet'})
+            continue
+        es = coq.lst(['(DriverWrite %s)' % pyvals.opt_pyval(c) for c in calls])
+        prows.append('(%s, %s, %s)' % (c_pdesc(d), coq.lst([c_json(x) for x in values]), es))
+        pmeta.append((d, case, {'raw': r['raw'], 'written': calls, 'seq': []}))
+    if prows:
+        pouts = coq.eval_shards(ctx.workdir, 'c05p' + tag, HEADER,
+                                ['Definition cases : list pcase := [\n %s].\n' % ';\n '.join(prows)],
+                                ['bad_play cases', 'bad_play_spec cases'], jobs=JOBS)
+        for rc, lists, err in pouts:
+            if rc != 0 or len(lists) != 2:
+                res['tie_failures'].append('coqc failed on the playback shard: %s' % err[-600:])
+                continue
+            for i in lists[0]:
+                d, case, r = pmeta[i]
+                res['tie_failures'].append({'case': case, 'implementation': observed(r), 'note': 'played sequence: driver calls differ from the model'})
+            for i in lists[1]:
+                d, case, r = pmeta[i]
+                res['violations'].append(violation('wrong-delivery', case, r, d))
+    bump('queue-full-evicted-with-500', evicted[0])
     res['extra']['coq_wall_s'] = round(res['extra'].get('coq_wall_s', 0) + time.time() - t1, 2)
     bump('floats-checked-against-repr', len(fl))
     for i, (rc, lists, err) in enumerate(routs):
